@@ -200,4 +200,22 @@ PROPS = {
         level_note="All timer values and clock readings (no horizon bound). Sequential contracts.",
         explanation="case postconditions over a virtual clock.",
     ),
+    "C09": dict(
+        specs=["packer", "avp", "avp_types", "avp_grouped", "base", "node_model", "peer", "helpers", "c20", "family", "node"],
+        ground=[], replay=replay.generic,
+        trusted_base=[],
+        assumptions=COMMON_ASSUME + [
+            "handlers are serialized (S5): interleavings between application threads and the read thread are not decided",
+            "Inv_conn: at most one registered connection per host identity (instantiated for the connection found; see C13)",
+            "known finding C09-equal-hbh-on-two-hosts: re-verified with its witness condition excluded on every run"],
+        level_text="Deductive proof, with the requester's host identity h0 as a universally quantified ghost, that route_answer "
+                   "returns a READY connection whose host identity is h0 (the requester's registered connection for an arbitrary "
+                   "witness key), consumes the pending entry before returning (a second submission finds none), raises "
+                   "NotRoutable only when no ready connection of h0 is registered, and that Application.send_answer queues the "
+                   "answer exactly once on that connection and on NotRoutable queues nothing on any connection.",
+        level_note="Sequential contracts. The routing-to-the-requester clause holds only under the exclusion of the recorded "
+                   "known finding (equal hop-by-hop ids pending on two hosts); the check re-proves it under that exclusion "
+                   "and reports any other failure as a violation.",
+        explanation="ghost-origin contract of route_answer / send_answer.",
+    ),
 }
